@@ -127,8 +127,69 @@ class EvalSurface(OpSurface):
         return i[0] == "OK" and ic.strict_same(i[1], m[1])
 
 
-CALL, EVAL, WARM = CallSurface(), EvalSurface(), WarmCallSurface()
-SURFACES = {s.name: s for s in (CALL, EVAL, WARM)}
+class PolicyTypeSurface(core.Surface):
+    """a policy value that IS a literal of the operator's type must be stored typed (alone or in a list): otherwise the
+    operator silently degenerates (a network kept as text never matches)"""
+    name = "stored type of StatementCondition({op: {k: literal of the operator's type}})[op][k]"
+    theorem = "C11_ip / C11_order / C11_equals are stated for operands OF THE OPERATOR'S TYPE"
+    shrinkable = False
+
+    @staticmethod
+    def kind(v):
+        import datetime
+        import ipaddress
+        if isinstance(v, list):
+            return [PolicyTypeSurface.kind(z) for z in v]
+        if isinstance(v, bool):
+            return "bool"
+        for t, n in ((ipaddress.IPv4Network, "net4"), (ipaddress.IPv6Network, "net6"), (int, "int"), (datetime.datetime, "datetime"),
+                     (bytes, "bytes"), (str, "str")):
+            if isinstance(v, t):
+                return n
+        return type(v).__name__
+
+    def impl(self, x):
+        def run():
+            sc = _sc().model_validate({x["op"]: {KEY: x["pol"]}})
+            return self.kind(getattr(sc, x["op"].replace(":", ""))[KEY])
+        return core.impl_call(run)
+
+    def model(self, rn, x):
+        return ("OK", x["expect"])
+
+    def tags(self, x):
+        return {"policy-typing", x["fam"]}
+
+
+CALL, EVAL, WARM, PTYPE = CallSurface(), EvalSurface(), WarmCallSurface(), PolicyTypeSurface()
+SURFACES = {s.name: s for s in (CALL, EVAL, WARM, PTYPE)}
+
+
+def gen_policy_typing(rng, table):
+    """valid literals of each family, alone and in lists"""
+    import ipaddress
+    name, fam = rng.choice([(n, f) for n, f in table if f in ("ip", "int", "date", "bool", "bytes")])
+
+    def one():
+        if fam == "ip":
+            if rng.random() < 0.5:
+                a = ipaddress.IPv4Network((rng.getrandbits(32), rng.choice([0, 8, 16, 24, 32])), strict=False)
+                return str(a), "net4"
+            a = ipaddress.IPv6Network((rng.getrandbits(128), rng.choice([0, 32, 64, 128])), strict=False)
+            return rng.choice([str(a), a.exploded]), "net6"
+        if fam == "int":
+            v = rng.choice([0, 7, -3, 2 ** 40])
+            return rng.choice([v, str(v)]), "int"
+        if fam == "date":
+            return rng.choice(["2020-01-01T00:00:00Z", "2019-12-31T23:59:59+01:00", "2021-06-01T12:00:00", 1577836800]), "datetime"
+        if fam == "bool":
+            return rng.choice([True, False, "true", "FALSE"]), "bool"
+        return rng.choice(["QQ==", "YWJj", ""]), "bytes"
+    if fam != "bool" and rng.random() < 0.4:
+        items = [one() for _ in range(rng.randint(1, 3))]
+        return {"op": name, "fam": fam, "pol": [i[0] for i in items], "expect": [i[1] for i in items]}
+    v, k = one()
+    return {"op": name, "fam": fam, "pol": v, "expect": k}
 
 
 def prepare(rn):
@@ -352,7 +413,10 @@ def cases(rng, tier, shard, nshards):
             yield CALL, {"op": op, "pol": x0["pol"], "ctx": {}}
             yield EVAL, {"op": op, "pol": x0["pol"], "ctx": {}}
     n = {"quick": 4500, "thorough": 40000}[tier]
+    table = [(name, ic.family_of(base)) for name, (q, base, ifx) in ic.live_table().items()]
     for k in range(n):
+        if k % 6 == 0:
+            yield PTYPE, gen_policy_typing(rng, table)
         op = BASE_OPS[(k + shard) % len(BASE_OPS)]
         x = gen_case(rng, op)
         if "Like" in x["op"] and isinstance(x.get("pol"), str) and k % 2:
